@@ -81,6 +81,7 @@ def sigValid (g : Nat) : Bool := g != 0 && g != 3
 /-- what a callback script may do (to events of its own loop) -/
 inductive Act where
   | enable (j : Nat) | disable (j : Nat) | destroy (j : Nat)
+  | init (j : Nat) (sigs : List Nat) (oneshot : Bool)
 deriving Repr, DecidableEq
 
 /-- which of the three repairs are in the code -/
@@ -269,11 +270,17 @@ def raise (s : State) (g : Nat) : State × RaiseOut :=
       | _ => s.calls
     ({ s with ctxs := upd s.ctxs g (some c), calls := calls, pipe := appendPipes s.pipe g c.fds }, .handled)
 
+/-- a list as the `std::set` it denotes -/
+def dedup : List Nat → List Nat
+  | [] => []
+  | x :: xs => ins x (dedup xs)
+
 /-- one action of a callback script running on loop l: only events of that loop (that thread) -/
 def act (fx : Fixes) (s : State) (l : Nat) : Act → State
   | .enable j => if (s.evs j).loop = l then (enable fx s j).1 else s
   | .disable j => if (s.evs j).loop = l then (disable s j).1 else s
   | .destroy j => if (s.evs j).loop = l then (destroy s j).1 else s
+  | .init j sg o => if (s.evs j).loop = l then (initEv fx s j (dedup sg) o).1 else s
 
 def runScript (fx : Fixes) (s : State) (l : Nat) : List Act → State
   | [] => s
